@@ -5,7 +5,7 @@ import re
 
 ID = 'C14'
 LEVEL = 'other'
-TARGETS = ['selfies/utils/selfies_utils.py::split_selfies']
+TARGETS = ['selfies/utils/selfies_utils.py::split_selfies', 'selfies/utils/selfies_utils.py::len_selfies']
 ASSUMPTIONS = ['split_selfies: the concatenation clause is proved for every str (z3 + cvc5 on quantifier-free word equations)']
 EXPLANATION = (
     "BOUNDED stand-in (not counted as proved) plus every deductive clause listed in coverage.clauses: for every "
